@@ -98,7 +98,9 @@ func (scb *SchemaClientBoundImpl) Retrieve(ctx context.Context, path *sdcpb.Path
 	})
 	entry.schemaRsp = schema
 	entry.err = err
-	entry.ready = true
+	// only successful answers are memoised. A (possibly transient) error of the schema
+	// service must not be remembered for the lifetime of the datastore.
+	entry.ready = err == nil
 
 	return entry.Get()
 }
